@@ -285,6 +285,8 @@ def check_case(case, rec):
     n = len(cols[0][2])
     try:
         d = V.frame(cols)
+        if case.get("grouped"):
+            d.group_by(cols[0][0])  # a frame on which group_by was called earlier is a frame too (the mark stays on the object)
         before = V.frame_key(d)
         tin = {name: V.cells(d[name]) for name in names}
         tk = {name: [V.tok(x) for x in tin[name]] for name in names}
@@ -311,6 +313,8 @@ def check_case(case, rec):
         elif op["op"] == "unique_all":
             outnames = list(op["cols"])
         one = {"cols": cols, "ops": [public]}
+        if case.get("grouped"):
+            one["grouped"] = True
         try:
             out = apply(d, op, n, kinds)
         except Exception as e:
@@ -412,6 +416,8 @@ def run_shard(shard, rec):
                 # scalar conversion (np.asarray("a\x00") is 'a'): not explored; the column values are what matters here
                 ops = [o for o in ops if not str(o.get("value", "")).endswith("\x00")]
             check_case({"cols": cols, "ops": ops}, rec)
+            if 1 <= m <= 2:
+                check_case({"cols": cols, "ops": ops, "grouped": True}, rec)
     else:
         k1, k2, n = shard["k1"], shard["k2"], shard["n"]
         a1, a2 = V.alphabet(k1, "key"), V.alphabet(k2, "key")
